@@ -9,6 +9,10 @@ M-enum   : `_symbolic.itertools` is replaced by a proxy whose product / combinat
              combinations_with_replacement(S, r) inside modulo(d):  len(S) <= d  and  r <= 2d - 1
              product(*sets) inside modulo(d): every len <= d and the number of tuples <= d**2 (pairwise aggregation)
            and a global tuple budget (raises BudgetExceeded to abort a run-away query).
+M-builtin: min / max / sum / sorted / any / all as seen from the two modules of pydsdl._bit_length_set are replaced (in the module
+           namespaces, the builtins themselves are untouched) by wrappers that charge the number of elements of the sized
+           argument they are about to walk inside C code - where neither the step meter nor a wall-clock alarm can see or stop
+           them - against an element budget BEFORE walking it (a range of 2**49 elements is refused, not iterated).
 Steps    : sys.monitoring PY_START + JUMP events on code objects of the pydsdl package (everything else DISABLEd).
 """
 from __future__ import annotations
@@ -37,6 +41,9 @@ class SymbolicMonitor:
         self.max_s = 0
         self.max_product = 0
         self.tuple_budget = 3_000_000
+        self.enumerated = 0          # elements handed to C-level consumers (min/max/sum/sorted/any/all) by the symbolic code
+        self.max_enumerated = 0
+        self.enum_budget = 5_000_000
         self.step_budget = 60_000_000
         self._div = []
         self._orig = {}
@@ -47,11 +54,13 @@ class SymbolicMonitor:
         self.events, self.expansions = [], []
         self.tuples = self.steps = self.cwr_calls = self.product_calls = 0
         self.max_r = self.max_s = self.max_product = 0
+        self.enumerated = self.max_enumerated = 0
         self._div = []
 
     def snapshot(self):
         return {"tuples": self.tuples, "steps": self.steps, "cwr_calls": self.cwr_calls, "product_calls": self.product_calls,
                 "max_r": self.max_r, "max_s": self.max_s, "max_product": self.max_product,
+                "enumerated_by_builtins": self.enumerated, "largest_builtin_operand": self.max_enumerated,
                 "composite_expansions": len(self.expansions)}
 
     def install(self):
@@ -94,6 +103,38 @@ class SymbolicMonitor:
 
         self._orig["itertools"] = sym.itertools
         sym.itertools = ItertoolsProxy()
+
+        import builtins
+
+        def charged(name):
+            fn = getattr(builtins, name)
+
+            def wrapper(*a, **kw):
+                if len(a) == 1:
+                    try:
+                        n = len(a[0])
+                    except TypeError:
+                        n = None
+                    if n is not None:
+                        mon.enumerated += n
+                        mon.max_enumerated = max(mon.max_enumerated, n)
+                        if mon.enumerated > mon.enum_budget:
+                            mon.events.append(("numeric-enumeration", "%s() over %d elements (a %s); more than %d elements walked by builtins" % (
+                                name, n, type(a[0]).__name__, mon.enum_budget)))
+                            mon.enumerated = 0
+                            raise BudgetExceeded("element budget")
+                return fn(*a, **kw)
+
+            wrapper.__name__ = name
+            return wrapper
+
+        self._injected = []
+        bls_mod = __import__("pydsdl._bit_length_set._bit_length_set", fromlist=["x"])
+        for module in (sym, bls_mod):
+            for name in ("min", "max", "sum", "sorted", "any", "all"):
+                if name not in module.__dict__:
+                    setattr(module, name, charged(name))
+                    self._injected.append((module, name))
 
         def wrap_modulo(cls):
             orig = cls.__dict__["modulo"]
@@ -147,6 +188,9 @@ class SymbolicMonitor:
             else:
                 setattr(key[0], key[1], f)
         self._orig.clear()
+        for module, name in getattr(self, "_injected", []):
+            module.__dict__.pop(name, None)
+        self._injected = []
         self.steps_off()
 
     # ---- step meter ----
